@@ -26,3 +26,8 @@ func (cc *ClientConn) C17WriteBusy() (wmuHeld, reqHeaderHeld bool) {
 	}
 	return wmuHeld, len(cc.reqHeaderMu) > 0
 }
+
+// C17ErrRequestHeaderListSize is the error of a request whose header list is
+// larger than the peer's SETTINGS_MAX_HEADER_LIST_SIZE (a local failure after
+// the stream id was assigned and before anything is written).
+var C17ErrRequestHeaderListSize = errRequestHeaderListSize
